@@ -318,6 +318,8 @@ fn run_xc(out: &mut CaseOut, w: usize, w2: usize) {
         Stmt::Row(0, vec![Entry::X(true), Entry::X(false), n0(), Entry::X(true)]),
         Stmt::Row(1, vec![n0(), n0(), Entry::C(true), Entry::X(true)]),
         Stmt::Row(2, vec![Entry::X(true), n0(), Entry::C(false), Entry::X(true)]),
+        // two clocks that are not neighbours: the input between them keeps its value
+        Stmt::Row(3, vec![Entry::C(true), Entry::Num(1, Radix::Dec), Entry::C(true), Entry::X(true)]),
     ];
     let text = canonical(&Program { header, stmts }).text;
     let spec = DriverSpec::honest(&sigs, 7, Palette::Small);
@@ -331,6 +333,7 @@ fn run_xc(out: &mut CaseOut, w: usize, w2: usize) {
         (0, 0, 0), (1, 0, 0), (0, 1, 0), (1, 1, 0),
         (0, 0, 0), (0, 0, 1), (0, 0, 0),
         (0, 0, 0), (0, 0, 1), (0, 0, 0), (1, 0, 0), (1, 0, 1), (1, 0, 0),
+        (0, 1, 0), (1, 1, 1), (0, 1, 0),
     ];
     for (k, (a, b, c)) in want.iter().enumerate() {
         let Some(RealItem::Row(_)) = real.items.get(k) else {
@@ -353,6 +356,35 @@ fn run_xc(out: &mut CaseOut, w: usize, w2: usize) {
     }
     if real.items.len() != want.len() || !real.ended {
         out.fail("c07:extra-rows", format!("{} items, should be {}", real.items.len(), want.len()));
+        return;
+    }
+    // a test whose inputs are all 64 bits wide (or that has none): the expected value of a
+    // narrower output is reduced all the same
+    for with_input in [true, false] {
+        let wo = w.min(63);
+        let mut sigs2 = vec![Sig { name: "O".into(), bits: wo, kind: Kind::Out }];
+        let mut header2 = vec!["O".to_string()];
+        let v: i64 = -3;
+        let mut es = vec![Entry::Paren(Expr::konst(v))];
+        if with_input {
+            sigs2.insert(0, Sig { name: "I".into(), bits: 64, kind: Kind::In(InVal::Val(0)) });
+            header2.insert(0, "I".into());
+            es.insert(0, Entry::Paren(Expr::konst(v)));
+        }
+        let text2 = canonical(&Program { header: header2, stmts: vec![Stmt::Row(0, es)] }).text;
+        let spec2 = DriverSpec::honest(&sigs2, 7, Palette::Small);
+        let Ok(tc2) = load(&text2, &sigs2) else { continue };
+        let real2 = run_real(&tc2, &sigs2, &spec2, &RunOpts { max_next: 3, ..Default::default() });
+        if let Some(RealItem::Row(r)) = real2.items.first() {
+            let got = r.outputs.iter().find(|o| o.name == "O").map(|o| o.expected);
+            if got != Some(ExpVal::Val(reduce(v, wo))) {
+                out.fail(
+                    "c07:expected-not-reduced",
+                    format!("a test with {}: program value {v} for the {wo}-bit output O: expected value {got:?}, should be {}", if with_input { "one 64-bit input" } else { "no input at all" }, reduce(v, wo)),
+                );
+                return;
+            }
+        }
     }
 }
 
@@ -361,7 +393,7 @@ impl Property for C07 {
         "C07"
     }
     fn rule(&self) -> &'static str {
-        "profile `width`: (a) exhaustive sweep of every width 1..=64 x a 40-value boundary pool (0, +-1, MIN, MAX, 2^w-1, 2^w, 2^w+1, -2^w, 2^(w-1), ...) delivered directly / through arithmetic / through let, 8 values per program, on an input column, an output's expected column, a bidirectional signal's input and `_out` column and a virtual signal's column, plus a `Z x z Z X` row, in every second batch behind a `bits(2, 14)` entry feeding two extra inputs (3 and 1 bits wide: each gets exactly one bit of the value) (row entries and header columns then no longer line up one to one), in every fifth batch with 64 more one-bit outputs behind that are expected `X` in every row, or filled bit by bit by one `bits(64, 0x4000000000000005)` entry (columns 64 and up); (b) random (width, 64-bit value) pairs, one case in ten a fixed program with X and C entries on inputs wider than one bit (they stand for 0 / 1 and 0, 1, 0 at any width), values returning to the one two rows earlier (v, w, v), in a third of the programs the driver fails on one row's call and the caller goes on. Oracle: value & (2^w-1) in u64 (w=64 unchanged) against the input as received by the driver, row.inputs and the expected values; virtual column keeps 64 bits. Non-trivial: w >= 33 or the value has bits above w; distinct by (width, values, path)."
+        "profile `width`: (a) exhaustive sweep of every width 1..=64 x a 40-value boundary pool (0, +-1, MIN, MAX, 2^w-1, 2^w, 2^w+1, -2^w, 2^(w-1), ...) delivered directly / through arithmetic / through let, 8 values per program, on an input column, an output's expected column, a bidirectional signal's input and `_out` column and a virtual signal's column, plus a `Z x z Z X` row, in every second batch behind a `bits(2, 14)` entry feeding two extra inputs (3 and 1 bits wide: each gets exactly one bit of the value) (row entries and header columns then no longer line up one to one), in every fifth batch with 64 more one-bit outputs behind that are expected `X` in every row, or filled bit by bit by one `bits(64, 0x4000000000000005)` entry (columns 64 and up); (b) random (width, 64-bit value) pairs, one case in ten a fixed program with X and C entries on inputs wider than one bit (they stand for 0 / 1 and 0, 1, 0 at any width; two clocks with an input between them; and two one-row tests whose only input is 64 bits wide, or that have none, with a narrower output), values returning to the one two rows earlier (v, w, v), in a third of the programs the driver fails on one row's call and the caller goes on. Oracle: value & (2^w-1) in u64 (w=64 unchanged) against the input as received by the driver, row.inputs and the expected values; virtual column keeps 64 bits. Non-trivial: w >= 33 or the value has bits above w; distinct by (width, values, path)."
     }
     fn cases(&self, tier: Tier) -> u64 {
         match tier {
